@@ -395,7 +395,14 @@ fn replay(ctx: &mut Ctx, v: &Value) {
     ctx.force_sample(v["case"].clone());
     let s = start_servers(ctx.seed + 77);
     let mut res = Ok(());
-    if let Some(q) = v["case"]["quiet_ms"].as_u64() {
+    if let Some(k) = v["case"]["burst_hold"].as_u64() {
+        for _ in 0..20 {
+            if let Err(f) = burst_hold(k as usize) {
+                res = Err(f);
+                break;
+            }
+        }
+    } else if let Some(q) = v["case"]["quiet_ms"].as_u64() {
         let t = v["case"]["transport"].as_u64().unwrap_or(0) as usize % 3;
         let _ = t;
         for _ in 0..2 {
@@ -443,14 +450,19 @@ fn quiet_then_idle(quiet: Duration) -> Result<bool, Fail> {
         let a = scratch.unix_addr("q.sock");
         let addrs = [a.clone(), a.clone(), a.clone()];
         let server = Server::start(t_service().0, &a, 1, 100, 0);
+        // one connection stays open from start to end: it occupies the initial worker, so that during
+        // the quiet time only workers that were added on demand wait at the queue
+        let holder = open_bad(&a, Bad::IdleAfterCall, 99);
         let round = Round { transport: 0, clients: vec![simple(attempt)], bad: vec![Bad::IdleAfterCall, Bad::IdleAfterCall] };
         let first = run_round(&addrs, &round)?;
         if !matches!(first, RoundOutcome::Ok { .. }) {
+            drop(holder);
             let _ = server.stop();
             return Ok(false);
         }
         std::thread::sleep(quiet);
         let out = run_round(&addrs, &round);
+        drop(holder);
         let _ = server.stop();
         match out? {
             RoundOutcome::Ok { .. } => {
@@ -475,6 +487,54 @@ fn quiet_then_idle(quiet: Duration) -> Result<bool, Fail> {
         }
     }
     Ok(blocked == 0)
+}
+
+/// `k` connections opened back to back on a fresh server (1 initial worker, limit 100), each sending
+/// one request at once and staying open: every one of them is answered. Returns the numbers of the
+/// connections without an answer after 5 s.
+fn burst_hold_round(k: usize) -> Vec<usize> {
+    let scratch = Scratch::new("c13b");
+    let a = scratch.unix_addr("b.sock");
+    let server = Server::start(t_service().0, &a, 1, 100, 0);
+    let mut peers: Vec<Peer> = vec![];
+    for i in 0..k {
+        if let Ok(mut p) = Peer::connect(&a) {
+            p.send(&encode(&json!({"method": "org.verif.test.Echo", "parameters": {"token": format!("burst-{}", i), "n": i}}), Style::Compact));
+            peers.push(p);
+        }
+    }
+    let deadline = std::time::Instant::now() + Duration::from_secs(5);
+    let mut unanswered = vec![];
+    for (i, p) in peers.iter().enumerate() {
+        let left = deadline.saturating_duration_since(std::time::Instant::now()).max(Duration::from_millis(50));
+        if !matches!(p.wait_finals(1, left), Wait::Reached) {
+            unanswered.push(i);
+        }
+    }
+    drop(peers);
+    let _ = server.stop();
+    unanswered
+}
+
+/// Ok(true): all served; Ok(false): one unexplained stall; Err: the pattern repeated.
+fn burst_hold(k: usize) -> Result<bool, Fail> {
+    let first = burst_hold_round(k);
+    if first.is_empty() {
+        return Ok(true);
+    }
+    for _ in 0..3 {
+        let again = burst_hold_round(k);
+        if !again.is_empty() {
+            return Err(Fail::new(
+                "listen/blocked-by-other-connection",
+                format!(
+                    "{} connections opened back to back on a fresh server (worker limit 100), each sending one request and staying open: connections {:?} (and in a repetition {:?}) got no answer within 5 s while the others sat idle",
+                    k, first, again
+                ),
+            ));
+        }
+    }
+    Ok(false)
 }
 
 pub fn run(args: &Args) -> ! {
@@ -532,6 +592,27 @@ pub fn run(args: &Args) -> ! {
     });
     if let Some((round, f)) = r {
         ctx.violation(&f.key, &f.what, "c13-round", round_json(&round));
+    }
+    // bursts of connections that all stay open
+    let bursts = ctx.tier.pick(20, 400);
+    for r in 0..bursts {
+        if ctx.failed() {
+            break;
+        }
+        let k = [3usize, 5, 8, 16][r % 4];
+        ctx.class("burst-of-held-connections");
+        journal.borrow_mut().note(&json!({"burst_hold": k}));
+        match burst_hold(k) {
+            Ok(true) => ctx.case(Some(hash64(&("burst", r, k)))),
+            Ok(false) => {
+                ctx.case(None);
+                hung.set(hung.get() + 1);
+            }
+            Err(f) => {
+                ctx.case(None);
+                ctx.violation(&f.key, &f.what, "c13-burst", json!({"burst_hold": k}));
+            }
+        }
     }
     // quiet periods: whatever the pool does with workers it no longer needs must not cost a newcomer
     let quiets: Vec<u64> = ctx.tier.pick(vec![1300, 2200], vec![300, 1300, 2200, 3500, 6000, 11000]);
